@@ -29,6 +29,7 @@ ASSUMPTIONS = [
     "sequential consistency at the granularity of attribute loads/stores of the channel (GIL); code between two labelled operations of the scheduler harness is thread-local (re-checked by the shape audit for the modelled attributes)",
     "the environment (client, kernel, task) is over-approximated: total_outbufs_len is read as an arbitrary value, select may report whatever was asked for, a flush may fail at any time, a task may end with either verdict",
     "ServiceStart is the entry of HTTPChannel.service(); a request whose service() was entered before the decision is 'in progress', not 'buffered behind'",
+    "which socket errors are a close decision is part of the specification (harness/chanclose.py: EWOULDBLOCK none; the six silent-disconnect errnos of wasyncore._DISCONNECTED close on the I/O thread and are swallowed on a worker; every other errno sets will_close on the flushing thread), audited against the source and enforced on every injected errno (K-errno)",
 ]
 
 F22_SCENARIO = {"msgs": ["get", "get"], "cuts": [], "close": False, "lookahead": 0, "workers": 1,
@@ -157,6 +158,33 @@ def run(ctx):
                 bad += 1
         return bad
 
+    errno_ok = [True]
+    errno_seen = {}
+
+    def check_errno(sc, w, gran):
+        for (t, k, d) in w.sched.events:
+            if k in ("send_err", "recv_err"):
+                cls = "wouldblock" if d in H.WOULDBLOCK else ("silent_disconnect" if d in H.EXPECTED_DISCONNECTED else "other")
+                key = "%s/%s/%s" % (k[:4], "io" if t == "io" else "worker", cls)
+                errno_seen[key] = errno_seen.get(key, 0) + 1
+                errno_names.add(d)
+        probs = H.errno_conformance(w.sched.events)
+        if probs:
+            errno_ok[0] = False
+            p = probs[0]
+            labs = H.labels_of(w.sched.events)
+            ctx.report("errno:%s:%s:%s" % (p["call"], "io" if p["thread"] == "io" else "worker", p["errno_name"]),
+                       "%s failing with %s on %s: expected close decision(s) %s, observed %s" % (
+                           p["call"], p["errno_name"], p["thread"], p["expected_decisions"], p["observed_decisions"]),
+                       {"kind": "errno", "scenario": sc, "choices": list(w.sched.choices), "granularity": gran,
+                        "errno": p["errno"], "errno_name": p["errno_name"], "thread": p["thread"],
+                        "expected": "decision(s) %s right after the failing %s" % (p["expected_decisions"], p["call"]),
+                        "observed": {"decisions": p["observed_decisions"], "labels": labs[:30],
+                                     "application_calls": sum(1 for l in labs if l.startswith("app:"))},
+                        "failing_input_found": True})
+
+    errno_names = set()
+
     def validate(sc, w, pk):
         try:
             steps = H.abstract(w)
@@ -204,6 +232,7 @@ def run(ctx):
             w, v = run_one(sc, schedule=prefix, granularity=gran)
             labs = account(sc, w, v, "explore", gran)
             okp, okf = check_monitor(sc, w, labs, "explore", gran)
+            check_errno(sc, w, gran)
             if not okp:
                 _, inf = H.py_monitor(labs, H.COVERED)
                 if "flush_err_io" in inf["decisions_before_start"]:
@@ -219,6 +248,29 @@ def run(ctx):
         samples.append({"scenario": sc, "policy": "explore<=%d preemptions/%s" % (maxpre + (1 if thorough else 0), gran),
                         "runs": r["runs"], "per_level": r["per_preemption_level"], "truncated": r["truncated"]})
 
+    # 1b. every class of socket error at every call site, directed: the seven network errnos, every
+    # member of the CURRENT wasyncore._DISCONNECTED and of the expected set, EWOULDBLOCK and a few others
+    try:
+        from waitress import wasyncore as _wa
+        cur_disc = set(_wa._DISCONNECTED)
+    except Exception:
+        cur_disc = set()
+    directed_errnos = sorted(set(H.NETWORK_ERRNOS) | cur_disc | set(H.EXPECTED_DISCONNECTED) |
+                             {errno.EWOULDBLOCK, errno.EIO, errno.ENOBUFS, errno.EINTR, errno.EMSGSIZE})
+    for e in directed_errnos:
+        for sc in (
+            {"msgs": ["get", "get"], "cuts": [], "lookahead": 0, "workers": 1, "send_plan": [["err", e]]},       # worker flush
+            {"msgs": ["get", "exphead", "body3", "get"], "cuts": [], "lookahead": 0, "workers": 1,
+             "send_plan": [None, None, ["err", e]]},                                                         # worker send_continue
+            {"msgs": ["exphead", "body3", "get"], "cuts": [], "lookahead": 1, "workers": 1, "send_plan": [["err", e]]},  # I/O send_continue
+            {"msgs": ["get", "get"], "cuts": ["boundaries"], "lookahead": 1, "workers": 1, "recv_faults": {"1": e}},   # recv
+            {"msgs": ["close", "get"], "cuts": [], "lookahead": 0, "workers": 1, "send_plan": [0, 0, ["err", e]]},  # I/O handle_write
+        ):
+            w, v = run_one(sc, granularity="locks")
+            labs = account(sc, w, v, "default", "locks")
+            check_monitor(sc, w, labs, "default", "locks")
+            check_errno(sc, w, "locks")
+
     # 2. K-chan + monitor on generated scenarios, attribute granularity
     n_attr = 3500 if thorough else 430
     for n in range(n_attr):
@@ -229,6 +281,7 @@ def run(ctx):
         w, v = run_one(sc, policy=H.make_policy(rng, pk), granularity="attrs")
         labs = account(sc, w, v, pk, "attrs")
         check_monitor(sc, w, labs, pk, "attrs")
+        check_errno(sc, w, "attrs")
         validate(sc, w, pk)
         if n % 20 == 0:
             collected_labels.append(labs)
@@ -243,6 +296,7 @@ def run(ctx):
         w, v = run_one(sc, policy=H.make_policy(rng, pk, est=60), granularity="locks")
         labs = account(sc, w, v, pk, "locks")
         check_monitor(sc, w, labs, pk, "locks")
+        check_errno(sc, w, "locks")
         if n % 40 == 0:
             collected_labels.append(labs)
 
@@ -252,6 +306,9 @@ def run(ctx):
                "abstract state and labels after every step", conf_ok[0] and stats["validated_traces"] > 0,
                "validated %d traces, %d steps" % (stats["validated_traces"], stats["validated_steps"]))
     ctx.oblige("monitor (every kind of close decision) accepts every real trace", mon_ok[0])
+    ctx.oblige("K-errno: every injected socket error (%d distinct errnos; send/recv, I/O thread/worker) is followed by exactly "
+               "the close decision its class prescribes (will_close / handle_close / none)" % len(errno_names),
+               errno_ok[0] and len(errno_names) > 0, json.dumps(errno_seen, sort_keys=True))
     ctx.oblige("extracted monitor agrees with the harness monitor on %d real traces" % len(collected_labels),
                bad_ext == 0, "%d disagreements" % bad_ext)
 
@@ -277,6 +334,9 @@ def run(ctx):
         "decision_kinds_observed": decisions,
         "model_choice_kinds_exercised": tokens,
         "message_kinds": msg_kinds,
+        "socket_errors_injected_by_call_thread_class": errno_seen,
+        "distinct_errnos_injected": len(errno_names),
+        "errnos_injected": sorted(H.errno_name(e) for e in errno_names),
         "f22_scenario_still_violates": f22,
         "f22_io_variant_still_violates": f22_io[0],
         "model_explorer": ex,
@@ -306,6 +366,11 @@ def replay(data):
         return 0 if ok else 1
     okp, infop = H.py_monitor(labs, H.COVERED)
     print("scenario=%s verdict=%s" % (json.dumps(sc), v))
+    if data.get("kind") == "errno":
+        probs = H.errno_conformance(w.sched.events)
+        print("labels=%s" % " ".join(labs))
+        print("socket errors not followed by the prescribed decision: %s" % (probs or "none"))
+        return 1 if probs or not okp else 0
     print("labels=%s" % " ".join(labs))
     print("monitor(all close decisions)=%s %s" % (okp, infop or ""))
     return 0 if okp else 1
